@@ -614,6 +614,8 @@ impl AbstractTree for BlobTree {
     fn get<K: AsRef<[u8]>>(&self, key: K, seqno: SeqNo) -> crate::Result<Option<crate::UserValue>> {
         let key = key.as_ref();
 
+        #[cfg(feature = "verif_hooks")]
+        crate::verif_hooks::before_lock(crate::verif_hooks::LockId::VersionHistory, crate::verif_hooks::Mode::Read);
         #[expect(clippy::expect_used, reason = "lock is expected to not be poisoned")]
         let super_version = self
             .index
